@@ -4,13 +4,25 @@ plus the property oracle (numpy complex128 arithmetic on the decoded operands) e
 EXACT tier: small Gaussian integers (float64/float32 arithmetic is exact), model over Int, compared exactly.
 TOLERANCE tier: Float model for division / inverse / abs / norm / sigmoid (and a sample of the ring operations).
 MALFORMED stream: shape mismatches, wrong ranks, aliasing `out=` buffers: error KINDS compared exactly.
+
+Round-2 dimensions (orthogonal to the above, applied with some probability to every case):
+LAYOUT   every operand and every `out=` buffer may be a non-contiguous VIEW with the same logical values (permuted axes,
+         padded / stepped slices of a larger workspace, a column of a workspace with an extra axis, expanded stride-0 axes,
+         non-zero storage offset, several tensors carved out of ONE storage). Values are compared as before; in addition the
+         caller's buffer must hold the result afterwards, every other cell of its workspace and all operands must be unchanged.
+HISTORY  `prev`: the same tensor OBJECTS are first used for a call with other data, then overwritten in place and used for
+         the reported call; the first result is scribbled over before the reported result is read.
+RANGE    tolerance tier with saturation / tail arguments of the sigmoid (|Re z| up to 700), moduli 1e-140..1e140, exact zeros;
+         comparison per ENTRY relative to the entry's own magnitude (see `entry_scale`), non-finite entries by class.
 """
 import itertools
+import math
+import os
 
 import numpy as np
 
 from . import qc  # noqa: F401  (sets up sys.path / stubs)
-from .common import bits, unbits
+from .common import bits, close, unbits
 from .qc import torch
 
 from qucumber.utils import cplx  # noqa: E402
@@ -20,7 +32,10 @@ RULE = ("case = (function, operand shapes incl. the leading complex axis, operan
         "Exact tier: entries are Gaussian integers with parts in [-4,4]; tensor ranks 0-4, axis lengths 1-3, broadcast partners derived from the "
         "base shape (suffix, size-1 axes, scalar), out in {None, fresh, fresh float32, x, y, wrong-shaped}, the library constant cplx.I (float32) as x or y. "
         "Tolerance tier: N(0,1)*scale entries. Malformed stream: non-broadcastable pairs, wrong ranks, contraction mismatches, bad equations, "
-        "0-d / short leading axis. non-trivial iff every complex operand has an entry with non-zero real AND imaginary part (so a sign or "
+        "0-d / short leading axis. Orthogonal dimensions applied to every case: memory LAYOUT of every operand / out= buffer (permuted, padded, stepped, "
+        "column, expanded views; storage offset; one shared storage), storage-sharing out= buffers (views of an operand, overlapping windows), call "
+        "HISTORY on the same objects (in-place re-parametrisation, earlier result scribbled), numeric RANGE (sigmoid tails |Re z|<=700, moduli "
+        "1e-140..1e140, exact zeros; per-entry relative comparison). non-trivial iff every complex operand has an entry with non-zero real AND imaginary part (so a sign or "
         "conjugation error changes the result) and the call is not a pure error case; distinct by hash of the whole case")
 THEOREMS = {
     "make_complex": "C15_make_complex, C15_make_complex_none, C15_rejects_make_complex",
@@ -29,6 +44,7 @@ THEOREMS = {
     "numpy": "C15_numpy, C15_ofNdarray_numpy",
     "scalar_mult": "C15_scalar_mult, C15_scalar_mult_complex, C15_scalar_mult_out, C15_scalar_mult_out_sound, C15_toLike, "
                    "C15_rejects_scalar_mult_alias, C15_scalar_mult_alias_iff, C15_rejects_scalar_mult_out_shape, "
+                   "C15_scalar_mult_out_storage, C15_scalar_mult_out_view, "
                    "C15_rejects_scalar_mult_shape, C15_broadcast_shape, C15_broadcast_index",
     "elementwise_mult": "C15_elementwise_mult, C15_scalar_mult, C15_rejects_scalar_mult_shape",
     "matmul": "C15_matmul_mat_mat, C15_matmul_mat_vec, C15_matmul_vec_mat, C15_matmul_vec_vec, C15_matmul_batched, "
@@ -77,6 +93,178 @@ def to_np(t):
 
 def to_torch(t):
     return torch.tensor(to_np(t), dtype=torch.float32 if t["dtype"] == "f32" else torch.double)
+
+
+# ------------------------------------------------------------------ memory layouts
+# A layout spec (JSON, part of the case) describes how the logical tensor sits inside a larger physical workspace:
+#   perm   [j -> logical axis held by physical axis j]            (permuted / transposed storage order)
+#   pad    per logical axis [pre, post, step]                      (slice of a larger buffer, every step-th element)
+#   extra  [position, size, index] of an additional physical axis  (a "column" of a workspace)
+#   expand logical axes stored once and expanded with stride 0     (operands only; data must be constant along them)
+#   off    number of unused elements in front of the workspace      (storage offset)
+# `share` (case level): all workspaces of a dtype are carved out of one 1-D storage (disjoint ranges).
+def lay_phys_shape(shape, lay):
+    r = len(shape)
+    perm = lay.get("perm") or list(range(r))
+    pads = lay.get("pad") or [[0, 0, 1]] * r
+    exp = set(lay.get("expand") or [])
+    plen = [1 if k in exp else pads[k][0] + (shape[k] - 1) * pads[k][2] + 1 + pads[k][1] for k in range(r)]
+    phys = [plen[perm[j]] for j in range(r)]
+    ex = lay.get("extra")
+    if ex:
+        phys.insert(ex[0], ex[1])
+    return phys
+
+
+def lay_view(w, shape, lay, expanded=True):
+    """the logical view of workspace `w` (torch tensor or ndarray); with expanded=False the stride-0 axes keep length 1"""
+    r = len(shape)
+    is_np = isinstance(w, np.ndarray)
+    v = w
+    ex = lay.get("extra")
+    if ex:
+        v = v[(slice(None),) * ex[0] + (ex[2],)]
+    perm = lay.get("perm") or list(range(r))
+    if r:
+        dims = [perm.index(k) for k in range(r)]
+        v = v.transpose(dims) if is_np else v.permute(dims)
+    pads = lay.get("pad") or [[0, 0, 1]] * r
+    exp = set(lay.get("expand") or [])
+    for k in range(r):
+        if k in exp:
+            continue
+        pre, _post, step = pads[k]
+        v = v[(slice(None),) * k + (slice(pre, pre + (shape[k] - 1) * step + 1, step),)]
+    if exp and expanded:
+        v = np.broadcast_to(v, shape) if is_np else v.expand(shape)
+    return v
+
+
+def rand_layout(rng, shape, allow_expand=True, p_plain=0.5):
+    """None (plain contiguous tensor) or a layout spec for a tensor of logical shape `shape`"""
+    if rng.random() < p_plain:
+        return None
+    r = len(shape)
+    lay = {}
+    feats = rng.sample(["perm", "pad", "extra", "off", "expand"], rng.randint(1, 3))
+    if "perm" in feats and r >= 2:
+        perm = list(range(r))
+        if rng.random() < 0.5:
+            i, j = rng.sample(range(r), 2)
+            perm[i], perm[j] = perm[j], perm[i]
+        else:
+            rng.shuffle(perm)
+        lay["perm"] = perm
+    if "pad" in feats and r >= 1:
+        pads = [[0, 0, 1] for _ in range(r)]
+        for k in rng.sample(range(r), min(r, rng.randint(1, 2))):
+            pads[k] = [rng.randint(0, 2), rng.randint(0, 2), rng.choice([1, 1, 2, 3])]
+        lay["pad"] = pads
+    if "extra" in feats:
+        size = rng.randint(2, 3)
+        lay["extra"] = [rng.randint(0, r), size, rng.randrange(size)]
+    if "off" in feats:
+        lay["off"] = rng.randint(1, 5)
+    if "expand" in feats and allow_expand and any(d > 1 for d in shape):
+        cand = [k for k, d in enumerate(shape) if d > 1]
+        lay["expand"] = sorted(rng.sample(cand, rng.randint(1, min(2, len(cand)))))
+    return lay or None
+
+
+def make_expandable(t, lay):
+    """make the data of `t` constant along the axes the layout stores only once"""
+    if not lay or not lay.get("expand"):
+        return
+    a = to_np(t)
+    for k in lay["expand"]:
+        a = np.broadcast_to(np.take(a, [0], axis=k), a.shape)
+    t["data"] = [float(v) for v in np.ascontiguousarray(a).ravel()]
+
+
+class Arena:
+    """allocates the tensors of one case and remembers their workspaces for the post-call checks"""
+
+    def __init__(self, share=False):
+        self.share = share
+        self.pools = {}
+        self.items = []   # dicts: role, view, w, w0 (workspace before the call), vals (logical values), shape, lay
+
+    def _workspace(self, phys, dtype, fill, off):
+        n = numel(phys) + off
+        if self.share:
+            pool = self.pools.get(dtype)
+            if pool is None:
+                pool = self.pools[dtype] = [torch.full((1 << 16,), 11.0, dtype=dtype), 0]
+            if pool[1] + n <= pool[0].numel():
+                buf = pool[0][pool[1]: pool[1] + n]
+                pool[1] += n + 1
+            else:
+                buf = torch.full((n,), fill, dtype=dtype)
+        else:
+            buf = torch.full((n,), fill, dtype=dtype)
+        buf.fill_(fill)
+        return buf[off:].view(phys) if phys else buf[off:off + 1].view([])
+
+    def tensor(self, role, vals, dtype, lay, fill=9.0):
+        """vals: float64 ndarray of the logical values. Returns the tensor handed to the implementation."""
+        shape = list(vals.shape)
+        src = torch.tensor(vals, dtype=dtype)
+        if not lay and not self.share:
+            v, w = src, src
+            lay = {}
+        else:
+            lay = lay or {}
+            w = self._workspace(lay_phys_shape(shape, lay), dtype, fill, lay.get("off", 0))
+            base = lay_view(w, shape, lay, expanded=False)
+            s0 = src
+            for k in lay.get("expand") or []:
+                s0 = s0.narrow(k, 0, 1)
+            base.copy_(s0)
+            v = lay_view(w, shape, lay)
+        it = {"role": role, "view": v, "w": w, "shape": shape, "lay": lay, "vals": src}
+        self.items.append(it)
+        return v
+
+    @staticmethod
+    def base_of(it, w=None):
+        """the writable logical view (stride-0 axes at length 1) of the item's workspace (or of a copy `w` of it)"""
+        if it.get("window") is not None:
+            a, n = it["window"]
+            return (it["w"] if w is None else w)[a:a + n].view(it["shape"])
+        return lay_view(it["w"] if w is None else w, it["shape"], it["lay"], expanded=False)
+
+    def overwrite(self, role, vals):
+        """in-place re-parametrisation of the tensor object of `role` (history probe)"""
+        for it in self.items:
+            if it["role"] == role:
+                src = torch.tensor(vals, dtype=it["view"].dtype)
+                s0 = src
+                for k in it["lay"].get("expand") or []:
+                    s0 = s0.narrow(k, 0, 1)
+                self.base_of(it).copy_(s0)
+                it["vals"] = src
+
+    def freeze(self):
+        for it in self.items:
+            it["w0"] = it["w"].clone()
+
+    def operands_intact(self, skip=()):
+        """every operand still has its logical values and no cell of its workspace was written"""
+        for it in self.items:
+            if it["role"] in skip:
+                continue
+            if not torch.equal(it["view"], it["vals"]) or not torch.equal(it["w"], it["w0"]):
+                return False
+        return True
+
+    def workspace_clean(self, role):
+        """no cell of the workspace of `role` outside its logical view was written"""
+        for it in self.items:
+            if it["role"] == role:
+                exp = it["w0"].clone()
+                self.base_of(it, exp).copy_(self.base_of(it))
+                return bool(torch.equal(it["w"], exp))
+        return None
 
 
 def decode(t):
@@ -241,7 +429,7 @@ def oracle_value(case):
         rs = np_broadcast(sx[1:], sy[1:])
         if rs is None:
             return ("err", "RuntimeError")
-        if fn == "scalar_mult" and case.get("out") == "shape" and list(case["out_shape"]) != [2] + rs:
+        if fn == "scalar_mult" and case.get("out") in ("shape", "alias") and list(case["out_shape"]) != [2] + rs:
             return ("err", "ValueError")
         return ("c", decode(x) * decode(y))
     if fn == "matmul":
@@ -304,8 +492,11 @@ def oracle_value(case):
     if fn == "sigmoid":
         if np_broadcast(sx, sy) is None:
             return ("err", "ValueError")
-        z = to_np(x) + 1j * to_np(y)
-        return ("c", 1.0 / (1.0 + np.exp(-z)))
+        z = np.asarray(to_np(x) + 1j * to_np(y))
+        # numerically stable evaluation of the logistic function (independent of the formula used by the code)
+        pos = z.real >= 0
+        ez = np.exp(np.where(pos, -z, z))
+        return ("c", np.where(pos, 1.0 / (1.0 + ez), ez / (1.0 + ez)))
     raise ValueError(fn)
 
 
@@ -313,8 +504,58 @@ def oracle_value(case):
 I_PRISTINE = cplx.I.clone()
 
 
+class MemImage:
+    """the storage cells behind the tensors of one call, as ONE flat address space (for the storage model `c15.mem`):
+    every distinct torch storage contributes the range of cells spanned by the workspaces allocated in it"""
+
+    def __init__(self, arena, views):
+        self.ranges = {}   # storage data_ptr -> [flat tensor over the whole storage, lo, hi]
+        for it in arena.items:
+            self._cover(it["w"])
+        for v in views:
+            self._cover(v)
+        self.base = {}
+        n = 0
+        for key, (flat, lo, hi) in self.ranges.items():
+            self.base[key] = n - lo
+            n += hi - lo
+
+    @staticmethod
+    def _span(t):
+        """[lo, hi) of storage cells a tensor can touch"""
+        lo = t.storage_offset()
+        hi = lo + 1 + sum((d - 1) * st for d, st in zip(t.shape, t.stride()) if d > 0)
+        return lo, hi
+
+    def _cover(self, t):
+        st = t.untyped_storage()
+        key = st.data_ptr()
+        lo, hi = self._span(t)
+        if key in self.ranges:
+            r = self.ranges[key]
+            r[1], r[2] = min(r[1], lo), max(r[2], hi)
+        else:
+            self.ranges[key] = [torch.empty(0, dtype=t.dtype).set_(st), lo, hi]
+
+    def cells(self):
+        out = []
+        for flat, lo, hi in self.ranges.values():
+            out += flat[lo:hi].double().tolist()
+        return out
+
+    def view(self, t):
+        """{'shape', 'addr'}: the address of every entry in row-major order of the logical index"""
+        base = self.base[t.untyped_storage().data_ptr()] + t.storage_offset()
+        if t.dim() == 0:
+            addr = [base]
+        else:
+            idx = np.indices(tuple(t.shape)).reshape(t.dim(), -1)
+            addr = (base + sum(idx[k] * t.stride(k) for k in range(t.dim()))).tolist()
+        return {"shape": list(t.shape), "addr": [int(a) for a in addr]}
+
+
 def run_impl(case):
-    """returns (canonical result | {'error': kind}, extra) where extra carries identity information"""
+    """returns (canonical result | {'error': kind}, extra) where extra carries identity / buffer / operand information"""
     res, extra = _run_impl(case)
     if case.get("useI"):
         # the library constant must never be written; restore it so that one failure cannot contaminate later cases
@@ -323,52 +564,169 @@ def run_impl(case):
     return res, extra
 
 
+def np_operand(case, key_re="re", key_im="im"):
+    """the ndarray handed to make_complex(ndarray): optionally a non-contiguous view (Fortran order, slices, …)"""
+    shape = case["shape"]
+    z = np.asarray(case[key_re], dtype=np.float64).reshape(shape) + 1j * np.asarray(case[key_im], dtype=np.float64).reshape(shape)
+    if case.get("np_real"):
+        z = np.asarray(case[key_re], dtype=np.float64).reshape(shape)
+    lay = (case.get("lay") or {}).get("x")
+    if lay and len(shape) > 0:
+        w = np.full(lay_phys_shape(list(shape), lay), 9.0, dtype=z.dtype)
+        base = lay_view(w, list(shape), lay, expanded=False)
+        src = z
+        for k in lay.get("expand") or []:
+            src = np.take(src, [0], axis=k)
+        base[...] = src
+        z = lay_view(w, list(shape), lay)
+    return np.asarray(z)
+
+
+def tdtype(t):
+    return torch.float32 if t["dtype"] == "f32" else torch.double
+
+
+def alias_buffer(arena, case, x, y):
+    """an out= buffer that is a DIFFERENT object sharing storage with an operand (accepted and value-correct since 96aa40c)"""
+    al = case["alias"]
+    op = x if al["with"] == "x" else y
+    how = al.get("how", "window")
+    if how == "slice":
+        return op[...]
+    if how == "view_as":
+        return op.view_as(op)
+    if how == "detach":
+        return op.detach()
+    if how == "data":
+        return op.data
+    # a window of the operand's own 1-D storage, shifted by `shift` elements (partial overlap)
+    it = next(i for i in arena.items if i["role"] == al["with"])
+    os_ = case["out_shape"]
+    base = it["w"].view(-1)
+    start = al["lead"] + al["shift"]
+    return base[start:start + numel(os_)].view(os_)
+
+
+def call_fn(case, fn, x, y, out):
+    if fn == "make_complex":
+        return cplx.make_complex(x, y)
+    if fn == "scalar_mult":
+        return cplx.scalar_mult(x, y, out=out)
+    if fn == "einsum":
+        return cplx.einsum(case["eq"], x, y, real_part=case["rp"], imag_part=case["ip"])
+    if fn in ("real", "imag", "numpy", "conjugate", "conj", "norm_sqr", "absolute_value", "inverse", "norm"):
+        return getattr(cplx, fn)(x)
+    return getattr(cplx, fn)(x, y)
+
+
+def scribble(r):
+    """overwrite a value returned by an EARLIER call (it must not be what a later call returns or reads)"""
+    try:
+        if isinstance(r, np.ndarray) and r.ndim > 0 and r.flags.writeable:
+            r[...] = 13.0
+        elif hasattr(r, "fill_"):
+            r.fill_(13.0)
+    except Exception:  # noqa: BLE001
+        pass
+
+
 def _run_impl(case):
     fn = case["fn"]
     extra = {}
+    lays = case.get("lay") or {}
+    prev = case.get("prev")
     try:
         if fn == "make_complex_np":
-            z = np.asarray(case["re"], dtype=np.float64).reshape(case["shape"]) + 1j * np.asarray(case["im"], dtype=np.float64).reshape(case["shape"])
-            if case.get("np_real"):
-                z = np.asarray(case["re"], dtype=np.float64).reshape(case["shape"])
-            return canon(cplx.make_complex(np.asarray(z))), extra
+            z = np_operand(case)
+            if prev:
+                r0 = cplx.make_complex(np_operand({**case, "re": prev["re"], "im": prev["im"]}))
+                scribble(r0)
+            z0 = z.copy()
+            r = cplx.make_complex(z)
+            extra["operands_intact"] = bool(np.array_equal(z, z0))
+            return canon(r), extra
         use_i = case.get("useI")
-        x = cplx.I if use_i == "x" else to_torch(case["x"])
+        arena = Arena(share=bool(case.get("share")))
+        first = {k: (prev[k] if prev and prev.get(k) is not None else None) for k in ("x", "y")}
+
+        def build(role):
+            t = case[role]
+            vals = to_np(t) if first[role] is None else np.asarray(first[role], dtype=np.float64).reshape(t["shape"])
+            if case.get("alias") and case["alias"].get("how", "window") == "window" and case["alias"]["with"] == role:
+                # the operand sits in a 1-D storage with room before and after it for the overlapping out= window
+                al = case["alias"]
+                w = torch.full((al["lead"] + numel(t["shape"]) + al["tail"],), 9.0, dtype=tdtype(t))
+                v = w[al["lead"]: al["lead"] + numel(t["shape"])].view(t["shape"])
+                v.copy_(torch.tensor(vals, dtype=tdtype(t)))
+                arena.items.append({"role": role, "view": v, "w": w, "shape": list(t["shape"]), "lay": {}, "vals": v.clone(),
+                                    "window": [al["lead"], numel(t["shape"])]})
+                return v
+            return arena.tensor(role, vals, tdtype(t), lays.get(role))
+
+        x = cplx.I if use_i == "x" else build("x")
         if case.get("same"):
             y = x
         elif use_i == "y":
             y = cplx.I
         else:
-            y = to_torch(case["y"]) if case.get("y") is not None else None
-        if fn == "make_complex":
-            r = cplx.make_complex(x, y)
-        elif fn == "scalar_mult":
-            mode = case.get("out")
-            out = None
-            if mode == "x":
-                out = x
-            elif mode == "y":
-                out = y
-            elif mode in ("fresh", "fresh32"):
+            y = build("y") if case.get("y") is not None else None
+        mode = case.get("out") if fn == "scalar_mult" else None
+        out = None
+        if mode == "x":
+            out = x
+        elif mode == "y":
+            out = y
+        elif mode == "alias":
+            out = alias_buffer(arena, case, x, y)
+        elif mode in ("fresh", "fresh32", "shape"):
+            if mode == "shape":
+                os_, odt = case["out_shape"], (torch.float32 if case.get("out_dtype") == "f32" else torch.double)
+            else:
                 os_ = [2] + np_broadcast(case["x"]["shape"][1:], case["y"]["shape"][1:])
-                out = torch.full(os_, 7.0, dtype=torch.float32 if mode == "fresh32" else torch.double)
-            elif mode == "shape":
-                out = torch.full(case["out_shape"], 7.0, dtype=torch.float32 if case.get("out_dtype") == "f32" else torch.double)
-            keep = out.clone() if mode == "shape" else None
+                odt = torch.float32 if mode == "fresh32" else torch.double
+            out = arena.tensor("out", np.full(os_, 7.0), odt, lays.get("out"), fill=7.0)
+        if prev:
+            # HISTORY: a first call on the same objects with other data, then in-place re-parametrisation
             try:
-                r = cplx.scalar_mult(x, y, out=out)
-            finally:
+                r0 = call_fn(case, fn, x, y, out)
+            except Exception:  # noqa: BLE001
+                r0 = None
+            for role in ("x", "y"):
+                if first[role] is not None:
+                    arena.overwrite(role, to_np(case[role]))
+            if mode in ("fresh", "fresh32", "shape"):
+                arena.overwrite("out", np.full(list(out.shape), 7.0))
+        arena.freeze()
+        aliased = (case["alias"]["with"],) if mode == "alias" else ()
+        img = None
+        if mode in ("fresh", "fresh32", "shape", "alias") and case["num"] == "int" and not use_i:
+            img = MemImage(arena, [x, y, out])
+            extra["mem"] = {"before": img.cells(), "x": img.view(x), "y": img.view(y), "out": img.view(out)}
+        try:
+            r = call_fn(case, fn, x, y, out)
+            if prev and r0 is not None and r0 is not out and fn not in ("real", "imag"):
+                scribble(r0)
+            res = canon(r)
+        finally:
+            if mode == "shape":
                 # a rejected buffer must not have been written
-                extra["out_untouched"] = None if keep is None else bool(torch.equal(keep, out) and list(out.shape) == list(keep.shape))
-            extra["id"] = ID_OUT if (mode in ("fresh", "fresh32", "shape") and r is out) else (
+                it = next(i for i in arena.items if i["role"] == "out")
+                extra["out_untouched"] = bool(torch.equal(it["w"], it["w0"]) and list(out.shape) == list(case["out_shape"]))
+            extra["operands_intact"] = arena.operands_intact(skip=("out",) + aliased)
+            if img is not None:
+                extra["mem"]["after"] = img.cells()
+        if fn == "scalar_mult":
+            extra["id"] = ID_OUT if (mode in ("fresh", "fresh32", "shape", "alias") and r is out) else (
                 ID_X if r is x else (ID_Y if r is y else ID_NEW))
-        elif fn == "einsum":
-            r = cplx.einsum(case["eq"], x, y, real_part=case["rp"], imag_part=case["ip"])
-        elif fn in ("real", "imag", "numpy", "conjugate", "conj", "norm_sqr", "absolute_value", "inverse", "norm"):
-            r = getattr(cplx, fn)(x)
-        else:
-            r = getattr(cplx, fn)(x, y)
-        return canon(r), extra
+            if mode in ("fresh", "fresh32", "shape"):
+                extra["buffer"] = canon(out)
+                extra["workspace_clean"] = arena.workspace_clean("out")
+        for it in arena.items:
+            if it["role"] != "out":
+                extra["noncontig"] = extra.get("noncontig", False) or not it["view"].is_contiguous()
+            else:
+                extra["out_noncontig"] = not it["view"].is_contiguous()
+        return res, extra
     except Exception as e:  # the error KIND is an observable of the property
         return {"error": type(e).__name__}, extra
 
@@ -408,6 +766,10 @@ def run_model(ctx, case):
         elif mode == "shape":
             os_ = case["out_shape"]
             req["out"] = tj(T(os_, [7.0] * numel(os_), case.get("out_dtype", "f64")), ID_OUT)
+        elif mode == "alias":
+            # a different OBJECT (own id) whose storage overlaps an operand: the model has no storage, only objects
+            os_ = case["out_shape"]
+            req["out"] = tj(T(os_, [7.0] * numel(os_), case[case["alias"]["with"]]["dtype"]), ID_OUT)
         req["fresh_cast"] = ID_CAST
         req["fresh_out"] = ID_NEW
     else:
@@ -445,6 +807,8 @@ def result_dtype_expected(case):
         return "f32" if case["out"] == "fresh32" else "f64"
     if case["fn"] == "scalar_mult" and case.get("out") == "shape":
         return case.get("out_dtype", "f64")
+    if case["fn"] == "scalar_mult" and case.get("out") == "alias":
+        return case[case["alias"]["with"]]["dtype"]
     return case["x"]["dtype"]
 
 
@@ -456,16 +820,68 @@ def flat_of(res):
     return []
 
 
+SUM_FNS = ("matmul", "inner_prod", "einsum")
+
+
+def abs_case(case):
+    """the same call on the moduli of the operands (real, non-negative): for the summing operations its value is
+    sum |a||b|, the natural magnitude of each result entry"""
+    c = dict(case)
+    for k in ("x", "y"):
+        t = case.get(k)
+        if t is not None:
+            a = to_np(t)
+            m = np.sqrt(a[0] ** 2 + a[1] ** 2)
+            c[k] = T(t["shape"], np.concatenate([m.ravel(), np.zeros(m.size)]), t["dtype"])
+    if c["fn"] == "einsum":
+        c["rp"], c["ip"] = True, True
+    return c
+
+
+def entry_scale(case, want):
+    """per-entry magnitude against which an error is measured in the tolerance tier: the modulus of the entry itself,
+    for sums the sum of the moduli of the terms. Non-finite where the true value is."""
+    arr = np.asarray(want[1])
+    with np.errstate(all="ignore"):
+        sc = np.abs(arr).astype(np.float64)
+        if case["fn"] in SUM_FNS:
+            w2 = oracle_value(abs_case(case))
+            if w2[0] in ("c", "r") and np.asarray(w2[1]).shape == arr.shape:
+                sc = np.maximum(sc, np.abs(np.asarray(w2[1])))
+    return sc
+
+
+TINY = 1e-290  # floor of the per-entry normaliser (sub-normal results are compared absolutely at this level)
+
+
+def normalised(vals, nrm):
+    out = []
+    for v, n_ in zip(vals, nrm):
+        if math.isfinite(v) and math.isfinite(n_):
+            out.append(v / max(n_, TINY))
+        else:
+            out.append(v)
+    return out
+
+
+def model_exempt(case):
+    """tolerance-tier inputs for which the Float instantiation of the MODEL is not comparable: `sigC` uses the textbook
+    quotient `e·conj(d)/|d|²`, which overflows for Re z > ~354 where numpy's scaled complex division is still finite
+    (over ℝ, where the theorem lives, both are the same number). Such points are checked against the oracle only."""
+    return case["fn"] == "sigmoid" and case["num"] == "float" and max(case["x"]["data"] + [0.0]) > 350.0
+
+
 def one_case(ctx, case):
     fn, num = case["fn"], case["num"]
     exact = num == "int"
-    impl, iextra = run_impl(case)
+    with np.errstate(all="ignore"):
+        impl, iextra = run_impl(case)
     is_err = "error" in impl
     ops = [case[k] for k in ("x", "y") if case.get(k) is not None and fn not in ("make_complex", "sigmoid")]
     nontriv = (not is_err) and all(nontrivial_operand(t) for t in ops)
     ctx.case(case, nontrivial=nontriv, sample={"fn": fn, "num": num, "x": (case.get("x") or {}).get("shape"),
                                               "y": (case.get("y") or {}).get("shape"), "eq": case.get("eq"), "out": case.get("out"),
-                                              "result": impl.get("error", impl.get("shape", impl.get("kind")))})
+                                              "lay": case.get("lay"), "result": impl.get("error", impl.get("shape", impl.get("kind")))})
     ctx.count(f"fn={fn}")
     ctx.count(f"tier={'exact' if exact else 'tolerance'}")
     ctx.count("outcome=" + (impl["error"] if is_err else "value"))
@@ -477,9 +893,50 @@ def one_case(ctx, case):
         ctx.count(f"out={case['out']}")
     if case.get("useI") or (case.get("x") or {}).get("dtype") == "f32" or (case.get("y") or {}).get("dtype") == "f32":
         ctx.count("float32_operand")
+    for k, lay in (case.get("lay") or {}).items():
+        if lay:
+            for feat in lay:
+                ctx.count(f"layout[{'out' if k == 'out' else 'operand'}]={feat}")
+    if iextra.get("noncontig"):
+        ctx.count("operand_noncontiguous")
+    if iextra.get("out_noncontig"):
+        ctx.count("out_buffer_noncontiguous")
+    if case.get("share"):
+        ctx.count("shared_storage")
+    if case.get("prev"):
+        ctx.count("history=second_call_after_inplace_update")
+    if case.get("regime"):
+        ctx.count(f"regime[{fn}]={case['regime']}")
     sig = f"{fn}/{'err' if is_err else 'value'}"
     th = THEOREMS.get(fn)
-    scale = 1.0 + max([abs(v) for v in flat_of(impl)] + [0.0]) if not is_err else 1.0
+    with np.errstate(all="ignore"):
+        want = oracle_value(case)
+    finite_impl = [abs(v) for v in flat_of(impl) if math.isfinite(v)] if not is_err else []
+    scale = 1.0 + max(finite_impl + [0.0])
+    # tolerance tier: per-entry normaliser (flat, aligned with flat_of(impl))
+    nrm = None
+    if not exact and not is_err and want[0] in ("c", "r"):
+        sc = entry_scale(case, want).ravel().tolist()
+        nrm = sc + sc if want[0] == "c" else sc
+        if len(nrm) != len(flat_of(impl)):
+            nrm = None
+
+    def vpoint(name, ivals, mvals, sg):
+        if exact:
+            ctx.point(name, "property", ivals, mvals, case, exact=True, theorem=th, sig=sg)
+        elif nrm is not None and len(mvals) == len(nrm) == len(ivals):
+            # relative to the magnitude of each entry, not to the largest entry of the tensor
+            ni, nm_ = normalised(ivals, nrm), normalised(mvals, nrm)
+            bad = [k for k in range(len(ni)) if not close(ni[k], nm_[k])]
+            if not bad:
+                ctx.point(name, "property", ni, nm_, case, scale=1.0, theorem=th, sig=sg)
+            else:
+                # report the RAW values of the offending entry (the comparison itself was made on value / entry magnitude)
+                k = bad[0]
+                ctx.point(name, "property", {"index": k, "value": ivals[k], "entry_magnitude": nrm[k], "all": ivals[:64]},
+                          {"index": k, "value": mvals[k], "entry_magnitude": nrm[k], "all": mvals[:64]}, case, exact=True, theorem=th, sig=sg)
+        else:
+            ctx.point(name, "property", ivals, mvals, case, scale=scale, theorem=th, sig=sg)
 
     # ---------------- correspondence with the Lean model
     if ctx.driver is not None:
@@ -492,19 +949,41 @@ def one_case(ctx, case):
             i_struct["id"] = iextra.get("id")
             m_struct["id"] = mextra.get("id")
         ctx.point(f"{fn}.kind_shape", "property", i_struct, m_struct, case, exact=True, theorem=th, sig=sig + "/shape")
+        if iextra.get("mem") is not None and "after" in iextra["mem"]:
+            # the storage model: the whole memory behind the call (operands, buffer, padding cells of the workspaces)
+            mm = iextra["mem"]
+            ctx.count("storage_model_cases")
+            mr = ctx.driver.call("c15.mem", num="int", mem=[int(v) for v in mm["before"]], x=mm["x"], y=mm["y"], out=mm["out"])
+            if not is_err or impl.get("error") == "ValueError":
+                ctx.point("scalar_mult.storage.kind", "property", impl.get("error"), mr.get("error"), case, exact=True,
+                          theorem="C15_scalar_mult_out_storage, C15_scalar_mult_out_view", sig="scalar_mult/storage/kind")
+            mem_model = mm["before"] if "error" in mr else [float(v) for v in mr["mem"]]
+            ctx.point("scalar_mult.storage.memory_after", "property", mm["after"], mem_model, case, exact=True,
+                      theorem="C15_scalar_mult_out_storage, C15_scalar_mult_out_view", sig="scalar_mult/storage/memory")
+            if not is_err and "error" not in mr:
+                ctx.point("scalar_mult.storage.value", "property", flat_of(impl), [float(v) for v in mr["data"]], case, exact=True,
+                          theorem="C15_scalar_mult_out_storage, C15_scalar_mult_out_view", sig="scalar_mult/storage/value")
         if not is_err and "error" not in model and impl.get("kind") != "none":
-            if exact:
-                ctx.point(f"{fn}.value", "property", flat_of(impl), flat_of(model), case, exact=True, theorem=th, sig=sig)
+            if model_exempt(case):
+                ctx.count("model_value_exempt(sigmoid Re z > 350)")
             else:
-                ctx.point(f"{fn}.value", "property", flat_of(impl), flat_of(model), case, scale=scale, theorem=th, sig=sig)
+                vpoint(f"{fn}.value", flat_of(impl), flat_of(model), sig)
+                if iextra.get("buffer") is not None and iextra["buffer"].get("shape") == model.get("shape"):
+                    # the caller's buffer (read through the caller's own view) holds the model's value
+                    vpoint(f"{fn}.out_buffer", flat_of(iextra["buffer"]), flat_of(model), f"{fn}/out-buffer")
 
     # ---------------- the property itself on the implementation
-    want = oracle_value(case)
     if iextra.get("I_intact") is not None:
         ctx.oracle("cplx.I not overwritten", iextra["I_intact"], case, sig=f"{fn}/cplx.I-intact", theorem="C15_rejects_scalar_mult_alias")
     if iextra.get("out_untouched") is not None and is_err:
         ctx.oracle(f"{fn} rejected out= buffer not written", iextra["out_untouched"], case, sig=f"{fn}/out-untouched",
                    theorem="C15_rejects_scalar_mult_out_shape")
+    if iextra.get("operands_intact") is not None:
+        ctx.oracle(f"{fn} leaves its operands (and their workspaces) unchanged", iextra["operands_intact"], case,
+                   sig=f"{fn}/operands-intact", theorem=th)
+    if iextra.get("workspace_clean") is not None and not is_err:
+        ctx.oracle(f"{fn} writes only the cells of the out= view", iextra["workspace_clean"], case,
+                   sig=f"{fn}/out-workspace", theorem="C15_scalar_mult_out")
     if want[0] == "err":
         ctx.oracle(f"{fn} rejects", is_err and impl["error"] == want[1], case,
                    detail={"impl": impl if is_err else {"shape": impl.get("shape")}, "expected_error": want[1]},
@@ -517,28 +996,38 @@ def one_case(ctx, case):
         ctx.oracle(f"{fn} accepts", False, case, detail={"impl": impl, "expected_shape": list(want[1].shape)}, sig=f"{fn}/accepts", theorem=th)
         return
     arr = np.asarray(want[1])
-    if "re" in impl:  # ndarray result of cplx.numpy
-        got_shape = impl["shape"]
-        got = np.asarray(impl["re"]).reshape(got_shape) + 1j * np.asarray(impl["im"]).reshape(got_shape)
-    elif want[0] == "c":
-        got_shape = impl["shape"][1:]
-        a = np.asarray(impl["data"]).reshape(impl["shape"]) if impl["shape"] and impl["shape"][0] == 2 else None
-        got = None if a is None else a[0] + 1j * a[1]
-    else:
-        got_shape = impl["shape"]
-        got = np.asarray(impl["data"]).reshape(got_shape)
-    ok = got is not None and list(got_shape) == list(arr.shape)
-    detail = None
-    if ok:
-        if exact:
-            ok = bool(np.array_equal(got, arr))
+
+    def against_oracle(res, label, sg):
+        if "re" in res:  # ndarray result of cplx.numpy
+            got_shape = res["shape"]
+            got = np.asarray(res["re"]).reshape(got_shape) + 1j * np.asarray(res["im"]).reshape(got_shape)
+        elif want[0] == "c":
+            got_shape = res["shape"][1:]
+            a = np.asarray(res["data"]).reshape(res["shape"]) if res["shape"] and res["shape"][0] == 2 else None
+            got = None if a is None else a[0] + 1j * a[1]
         else:
-            sc = 1.0 + float(np.max(np.abs(arr))) if arr.size else 1.0
-            ok = bool(np.all(np.abs(got - arr) <= 1e-9 * sc + 1e-6 * np.abs(arr)))
-    if not ok:
-        detail = {"impl_shape": impl.get("shape"), "expected_shape": list(arr.shape),
-                  "impl": str(np.asarray(got).ravel()[:16].tolist()) if got is not None else None, "expected": str(arr.ravel()[:16].tolist())}
-    ctx.oracle(f"{fn} == complex arithmetic", ok, case, detail=detail, sig=f"{fn}/oracle", theorem=th)
+            got_shape = res["shape"]
+            got = np.asarray(res["data"]).reshape(got_shape)
+        ok = got is not None and list(got_shape) == list(arr.shape)
+        detail = None
+        if ok:
+            if exact:
+                ok = bool(np.array_equal(got, arr))
+            else:
+                with np.errstate(all="ignore"):
+                    sc = entry_scale(case, want)
+                    fin = np.isfinite(arr) & np.isfinite(sc)
+                    # non-finite true value (division by an exact zero, …): only the class is compared
+                    ok = bool(np.all(np.isfinite(got) == fin)) and \
+                        bool(np.all(np.abs(got[fin] - arr[fin]) <= 1e-7 * sc[fin] + TINY))
+        if not ok:
+            detail = {"impl_shape": res.get("shape"), "expected_shape": list(arr.shape),
+                      "impl": str(np.asarray(got).ravel()[:16].tolist()) if got is not None else None, "expected": str(arr.ravel()[:16].tolist())}
+        ctx.oracle(label, ok, case, detail=detail, sig=sg, theorem=th)
+
+    against_oracle(impl, f"{fn} == complex arithmetic", f"{fn}/oracle")
+    if iextra.get("buffer") is not None:
+        against_oracle(iextra["buffer"], f"{fn}: the out= buffer holds the product", f"{fn}/out-buffer-oracle")
     if "dtype" in impl and fn in ("scalar_mult", "elementwise_mult", "matmul", "inner_prod"):
         ctx.oracle(f"{fn} dtype", impl["dtype"] == result_dtype_expected(case), case,
                    detail={"impl": impl["dtype"], "expected": result_dtype_expected(case)}, sig=f"{fn}/dtype")
@@ -735,6 +1224,202 @@ def gen_tolerance(ctx, n_scale):
             yield {"fn": fn, "num": num, "x": rand_cplx(rng, [n], num)}
 
 
+def rand_cplx_mag(rng, tshape, lo, hi, zeros=0.0, mixed=True):
+    """complex tensor whose entries have moduli 10^U(lo,hi) (one exponent per entry when `mixed`, else one per tensor +-1),
+    random phases, a share of purely real / purely imaginary entries and exact zeros"""
+    n = numel(tshape)
+    base = rng.uniform(lo, hi)
+    re, im = [], []
+    for _ in range(n):
+        e = rng.uniform(lo, hi) if mixed else min(hi, max(lo, base + rng.uniform(-1.0, 1.0)))
+        m = 10.0 ** e
+        u = rng.random()
+        if u < zeros:
+            a, b = 0.0, 0.0
+        elif u < zeros + 0.08:
+            a, b = m * rng.choice([-1.0, 1.0]), 0.0
+        elif u < zeros + 0.16:
+            a, b = 0.0, m * rng.choice([-1.0, 1.0])
+        else:
+            phi = rng.uniform(0.0, 2.0 * math.pi)
+            a, b = m * math.cos(phi), m * math.sin(phi)
+        re.append(a)
+        im.append(b)
+    return T([2] + list(tshape), re + im)
+
+
+SIG_REGIMES = ["left_tail", "left_tail", "right_tail", "far_right", "underflow", "mixed", "real_axis"]
+
+
+def rand_sigmoid_args(rng, s, t, regime):
+    """real and imaginary part tensors for the sigmoid in a given regime of Re z. The formula of the code,
+    e^z/(1+e^z), is finite for Re z < 709.78 (beyond: inf/inf = nan while the true value is 1 — excluded, see notes)."""
+    def re_val():
+        r = regime if regime != "mixed" else rng.choice(["left_tail", "right_tail", "moderate", "far_right", "underflow", "zero"])
+        if r == "left_tail":
+            return -rng.uniform(30.0, 700.0)
+        if r == "right_tail":
+            return rng.uniform(30.0, 350.0)
+        if r == "far_right":
+            return rng.uniform(350.0, 700.0)
+        if r == "underflow":
+            return -rng.uniform(700.0, 800.0)
+        if r == "zero":
+            return 0.0
+        return rng.gauss(0.0, 5.0)
+
+    def im_val():
+        u = rng.random()
+        if regime == "real_axis" or u < 0.1:
+            return 0.0
+        if u < 0.6:
+            return rng.uniform(-math.pi, math.pi) * 0.97
+        if u < 0.8:
+            return rng.gauss(0.0, 50.0)
+        return rng.gauss(0.0, 1.0)
+    if regime == "real_axis":
+        xs = [rng.choice([-1.0, 1.0]) * rng.choice([rng.uniform(0, 5), rng.uniform(30, 350), rng.uniform(350, 700)]) for _ in range(numel(s))]
+    else:
+        xs = [re_val() for _ in range(numel(s))]
+    return T(s, xs), T(t, [im_val() for _ in range(numel(t))])
+
+
+def gen_ranges(ctx, n_scale):
+    """RANGE dimension of the tolerance tier: saturation / tails of the sigmoid, very large / small / mixed moduli and exact
+    zeros for division, inverse, modulus, norms and products. All intermediates of the clean code stay finite for moduli in
+    1e-140..1e140 (|y|² and x·conj(y) are formed explicitly); beyond that the code itself over/underflows (excluded)."""
+    rng = ctx.rng
+    num = "float"
+    R = lambda k: range(max(1, int(k * n_scale)))  # noqa: E731
+    for _ in R(160):
+        s = rand_shape(rng)
+        t = bcast_partner(rng, s) if rng.random() < 0.3 else list(s)
+        regime = rng.choice(SIG_REGIMES)
+        x, y = rand_sigmoid_args(rng, s, t, regime)
+        yield {"fn": "sigmoid", "num": num, "x": x, "y": y, "regime": regime}
+    for _ in R(420):
+        s = rand_shape(rng)
+        fn = rng.choice(["elementwise_division", "elementwise_division", "inverse", "inverse", "absolute_value", "absolute_value",
+                         "norm", "scalar_divide", "scalar_divide", "norm_sqr", "scalar_mult", "elementwise_mult", "conj", "matmul",
+                         "inner_prod", "outer_prod", "kronecker_prod"])
+        regime = rng.choice(["large", "small", "wide_mixed", "wide_mixed", "unit", "with_zeros"])
+        lo, hi = {"large": (20.0, 140.0), "small": (-140.0, -20.0), "wide_mixed": (-140.0, 140.0), "unit": (-3.0, 3.0),
+                  "with_zeros": (-30.0, 30.0)}[regime]
+        if fn in ("norm_sqr", "scalar_mult", "elementwise_mult", "matmul", "inner_prod", "outer_prod", "kronecker_prod"):
+            lo, hi = lo / 2.0, hi / 2.0   # products of two entries (and |x|^2) must stay finite
+        zeros = 0.25 if regime == "with_zeros" else 0.0
+        mixed = regime in ("wide_mixed", "with_zeros") or rng.random() < 0.3
+        mk = lambda shape: rand_cplx_mag(rng, shape, lo, hi, zeros=zeros, mixed=mixed)  # noqa: E731
+        c = {"fn": fn, "num": num, "regime": regime}
+        if fn == "elementwise_division":
+            c.update(x=mk(s), y=mk(s))
+        elif fn in ("inverse", "absolute_value", "conj"):
+            c.update(x=mk(s))
+        elif fn in ("norm", "norm_sqr"):
+            c.update(x=mk(rng.choice([[], [rng.randint(1, 4)]])))
+        elif fn in ("scalar_divide", "scalar_mult", "elementwise_mult"):
+            c.update(x=mk(s), y=mk(bcast_partner(rng, s)))
+            if fn == "scalar_mult":
+                c["out"] = rng.choice([None, None, "fresh"])
+        elif fn == "matmul":
+            n, k, m = rng.randint(1, 3), rng.randint(1, 3), rng.randint(1, 3)
+            c.update(x=mk([n, k]), y=mk(rng.choice([[k, m], [k]])))
+        elif fn == "inner_prod":
+            n = rng.randint(1, 4)
+            c.update(x=mk([n]), y=mk([n]))
+        elif fn == "outer_prod":
+            c.update(x=mk([rng.randint(1, 3)]), y=mk([rng.randint(1, 3)]))
+        else:
+            c.update(x=mk([rng.randint(1, 3), rng.randint(1, 3)]), y=mk([rng.randint(1, 2), rng.randint(1, 3)]))
+        yield c
+
+
+def gen_alias(ctx, n_scale):
+    """out= buffers that are DIFFERENT objects sharing storage with an operand (x[...], view_as, detach, .data, an overlapping
+    window of the same 1-D storage): accepted, and the returned value is the product of the operands as they were (fix 96aa40c)"""
+    rng = ctx.rng
+    num = "int"
+    R = lambda k: range(max(1, int(k * n_scale)))  # noqa: E731
+    for _ in R(140):
+        s = rand_shape(rng)
+        t = list(s)
+        for _try in range(8):
+            t = bcast_partner(rng, s)
+            if np_broadcast(s, t) == s:
+                break
+        else:
+            t = list(s)
+        which = rng.choice(["x", "y"])
+        big, small = rand_cplx(rng, s, num), rand_cplx(rng, t, num)
+        how = rng.choice(["slice", "view_as", "detach", "data", "window", "window", "window"])
+        al = {"with": which, "how": how}
+        if how == "window":
+            n = 2 * numel(s)
+            shift = rng.choice([0, 1, -1, rng.randint(-n + 1, n - 1), rng.randint(-n + 1, n - 1), n // 2])
+            al.update(shift=shift, lead=max(0, -shift) + rng.randint(0, 2), tail=max(0, shift) + rng.randint(0, 2))
+        case = {"fn": "scalar_mult", "num": num, "x": big if which == "x" else small, "y": small if which == "x" else big,
+                "out": "alias", "alias": al, "out_shape": [2] + s}
+        if rng.random() < 0.15:
+            # wrong-shaped storage-sharing buffer: still ValueError, nothing written
+            case["out_shape"] = [2] + s + [1] if how == "window" else case["out_shape"]
+        ctx.count(f"storage_alias={how}")
+        yield case
+
+
+def decorate(ctx, case):
+    """LAYOUT / HISTORY dimensions, applied to any generated case (same logical values, same expected result)"""
+    rng = ctx.rng
+    fn = case["fn"]
+    num = case["num"]
+    lay = {}
+    if fn == "make_complex_np":
+        l = rand_layout(rng, case["shape"], allow_expand=False, p_plain=0.6)
+        if l:
+            l.pop("off", None)
+            if l:
+                lay["x"] = l
+        if lay:
+            case["lay"] = lay
+        if rng.random() < 0.15:
+            n = numel(case["shape"])
+            case["prev"] = {"re": rand_vals(rng, n, num), "im": rand_vals(rng, n, num)}
+        return case
+    alias = case.get("alias")
+    for role in ("x", "y"):
+        t = case.get(role)
+        if t is None or case.get("useI") == role or (role == "y" and case.get("same")):
+            continue
+        if alias and alias["with"] == role and alias["how"] == "window":
+            continue
+        l = rand_layout(rng, t["shape"], allow_expand=not (alias and alias["with"] == role))
+        if l:
+            if case.get("same") and role == "x":
+                pass
+            make_expandable(t, l)
+            lay[role] = l
+    if fn == "scalar_mult" and case.get("out") in ("fresh", "fresh32", "shape"):
+        os_ = case["out_shape"] if case["out"] == "shape" else [2] + (np_broadcast(case["x"]["shape"][1:], case["y"]["shape"][1:]) or [])
+        if case["out"] == "shape" or np_broadcast(case["x"]["shape"][1:], case["y"]["shape"][1:]) is not None:
+            l = rand_layout(rng, os_, allow_expand=False, p_plain=0.4)
+            if l:
+                lay["out"] = l
+    if lay:
+        case["lay"] = lay
+    if rng.random() < 0.2 and not alias:
+        case["share"] = True
+    if rng.random() < 0.15 and not case.get("useI"):
+        prev = {}
+        for role in ("x", "y"):
+            t = case.get(role)
+            if t is None or (role == "y" and case.get("same")):
+                continue
+            p = T(t["shape"], rand_vals(rng, numel(t["shape"]), num), t["dtype"])
+            make_expandable(p, lay.get(role))
+            prev[role] = p["data"]
+        case["prev"] = prev
+    return case
+
+
 def gen_malformed(ctx, n_scale):
     rng = ctx.rng
     num = "int"
@@ -877,9 +1562,9 @@ def gen_malformed(ctx, n_scale):
 
 
 def gen_all(ctx, n_scale):
-    yield from gen_exact(ctx, n_scale)
-    yield from gen_tolerance(ctx, n_scale)
-    yield from gen_malformed(ctx, n_scale)
+    for gen in (gen_exact, gen_alias, gen_tolerance, gen_ranges, gen_malformed):
+        for case in gen(ctx, n_scale):
+            yield decorate(ctx, case)
 
 
 def run(ctx):
